@@ -11,12 +11,12 @@ import (
 func init() { register("C05", checkC05) }
 
 func checkC05(c *Ctx, r *Report) {
-	r.Explanation = "Decides structural clauses of 'failures are reported as failures, in the caller's dialect': (R1) wherever a handler learns that the proxy call failed, the failure branch reaches an error-status write with a constant >= 400 (under the nothing-written test); (R2) in the streaming translation path the proxy goroutine makes a failure visible before it signals headers-ready (a status >= 400 is stored on the recorder under err != nil, before the unconditional signal), and the waiting handler branches on the recorder's status between the wake-up and its first write; (R3) on the Anthropic routes every error response is produced by the translator's ErrorWriter (or writeTranslatorError, which delegates), plain http.Error / raw WriteHeader only on the branch where the translator does not implement ErrorWriter, and the Anthropic ErrorWriter builds {type:error, error:{type,message}}; (R4) relayed backend errors keep the backend's status (the status operand is the recorder's status); (R5) a handler never waits for the proxy goroutine with the pipe neither drained nor closed (no hang instead of an error); (R6) after the client response's Content-Type has been set, no error caused by backend data is returned to a caller that uses the empty-Content-Type test to decide whether it may still write an error."
+	r.Explanation = "Decides structural clauses of 'failures are reported as failures, in the caller's dialect': (R1) wherever a handler learns that the proxy call failed, the failure branch reaches an error-status write whose status is provably >= 400 (a constant, a phi of constants, or a parameter every caller feeds with one) (under the nothing-written test); (R2) in the streaming translation path the proxy goroutine makes a failure visible before it signals headers-ready (a status >= 400 is stored on the recorder under err != nil, before the unconditional signal), and the waiting handler branches on the recorder's status between the wake-up and its first write; (R3) on the Anthropic routes every error response is produced by the translator's ErrorWriter (or writeTranslatorError, which delegates), plain http.Error / raw WriteHeader only on the branch where the translator does not implement ErrorWriter, and the Anthropic ErrorWriter builds {type:error, error:{type,message}}; (R4) relayed backend errors keep the backend's status (the status operand is the recorder's status); (R5) a handler never waits for the proxy goroutine with the pipe neither drained nor closed (no hang instead of an error); (R6) after the client response's Content-Type has been set, no error caused by backend data is returned to a caller that uses the empty-Content-Type test to decide whether it may still write an error."
 	r.NotDecided = "promptness (timing), malformed-JSON backend bodies on the non-streaming path (parsed before the status is looked at, so a 5xx with a non-JSON body becomes 502), content of error messages."
 	r.Assumptions = []string{"json.Marshal of values the translator built itself cannot fail (the one exempted error source in R6)", "go/ssa CFG"}
 
 	// ---------- R1 ----------
-	r.Rule("C05-R1", "for every test `proxy error != nil` in the handlers, the failure branch contains (directly or in a callee that receives the writer, depth 2) an error-status write with a constant >= 400", 4)
+	r.Rule("C05-R1", "for every test `proxy error != nil` in the handlers, the failure branch contains (directly or in a callee that receives the writer, depth 2) an error-status write whose status is provably >= 400 (a constant, a phi of constants, or a parameter every caller feeds with one)", 4)
 	for _, f := range c.Funcs {
 		if !strings.HasSuffix(fnPkgPath(f), pkgHandlers) {
 			continue
@@ -48,22 +48,28 @@ func checkC05(c *Ctx, r *Report) {
 			}
 			key := fname(f) + ":proxy-failure-answered"
 			found, returnsErr := false, false
+			var weak ssa.Instruction
+			note := func(in ssa.Instruction) {
+				st := statusOperand(in)
+				if st == nil {
+					return
+				}
+				if provablyErrorStatus(c, st, 4) {
+					found = true
+				} else if _, isK := constInt(st); !isK {
+					weak = in
+				}
+			}
 			for _, rb := range f.Blocks {
 				if !tb.Dominates(rb) {
 					continue
 				}
 				for _, in := range rb.Instrs {
-					if isErr, ok := errorStatusWrite(in); ok && isErr {
-						found = true
-					}
+					note(in)
 					if cc := getCall(in); cc != nil {
 						if sc := cc.StaticCallee(); sc != nil && c.inRepo(sc) {
 							if _, wa := respWriterArg(cc); wa != nil {
-								eachInstr(sc, func(i2 ssa.Instruction) {
-									if isErr, ok := errorStatusWrite(i2); ok && isErr {
-										found = true
-									}
-								})
+								eachInstr(sc, note)
 							}
 						}
 					}
@@ -75,6 +81,10 @@ func checkC05(c *Ctx, r *Report) {
 						}
 					}
 				}
+			}
+			if !found && weak != nil {
+				r.Bad("C05-R1", key, weak.Pos(), "the proxy call failed and the status written on this branch is not provably >= 400 (it is computed from a runtime value): the client can receive a 2xx for a request no backend answered")
+				continue
 			}
 			switch {
 			case found:
